@@ -28,6 +28,32 @@ def ptrOk (c : Ctor) (vals : List Int) : Bool :=
 def image (c : Ctor) (vals : List Int) : String :=
   "img " ++ String.join ((encode c (nth vals)).map fun b => String.ofList [Drv.hexNib (b / 16 % 16), Drv.hexNib (b % 16)])
 
+/-- what ABI + intent (Model/UringAbi.lean) prescribe for one field, as a `Src` over the constructor's operands -/
+def roleSrc (ops : List (String × Kind)) (intent : List (String × Want)) : Role → Option Src
+  | .unused => some (.const 0)
+  | .operand nm _ => (lookup intent nm).bind (wantSrc ops)
+
+def findOp (op : String) : List AbiRow → Option AbiRow
+  | [] => none
+  | r :: rs => if r.op = op then some r else findOp op rs
+
+/-- the constructor ABI + intent prescribe: built from the operand NAMES and kinds of the table row only, none of
+its field sources (`sqe-intent` lines: the spec image the real constructors' bytes are judged against) -/
+def intendedCtor (c : Ctor) : Option Ctor := do
+  let (op, intent) ← lookup intents c.name
+  let row ← findOp op abi
+  let i ← indexOf c.operands "sqe_flags"
+  let j ← indexOf c.operands "user_data"
+  let fd ← roleSrc c.operands intent row.fd
+  let off ← roleSrc c.operands intent row.off
+  let addr ← roleSrc c.operands intent row.addr
+  let len ← roleSrc c.operands intent row.len
+  let opflags ← roleSrc c.operands intent row.opflags
+  let bufIndex ← roleSrc c.operands intent row.bufIndex
+  let fileIndex ← roleSrc c.operands intent row.fileIndex
+  pure { name := c.name, operands := c.operands, opcode := .const row.opcode, flags := .arg i, ioprio := .const 0,
+         fd, off, addr, len, opflags, opflagsBytes := 4, userData := .arg j, bufIndex, personality := .const 0, fileIndex }
+
 def showEv : UringRes.Ev → String
   | .S => "S" | .M i l o => s!"M{i}:{l}:{o}" | .ME l o => s!"ME:{l}:{o}" | .bar => "|"
   | .U i l => s!"U{i}:{l}" | .C => "C"
@@ -107,6 +133,23 @@ def step' (cd : Ring.Code) (line : String) : Ring.Code × String :=
   | ["code", "fixed"] => (.fixed, "ok")
   | ["code", "eager-release"] => (.eagerRelease, "ok")
   | "kring" :: rest => (cd, runKring cd ("kring" :: rest))
+  | "sqe-intent" :: "new_connect_unix" :: rest =>
+    match parseInts rest, (findCtor "new_connect_unix" ctors).bind intendedCtor with
+    | some [s, plen, ud, fl], some c =>
+      if 1 ≤ plen ∧ plen ≤ 100 then
+        let named : List (String × Int) := [("socket", s), ("user_data", ud), ("sqe_flags", fl),
+          ("sockaddr.addr_len", plen + 3), ("sockaddr.addr@ptr", 10558688), ("sockaddr.addr_len@ptr", 205520777296651)]
+        let vals := c.operands.map fun (nm, _) => match lookup named nm with | some v => v | none => 0
+        if validList c.operands vals then (cd, image c vals) else (cd, "bad-op")
+      else (cd, "bad-op")
+    | _, _ => (cd, "no-intent")
+  | "sqe-intent" :: name :: rest =>
+    match parseInts rest, findCtor name ctors with
+    | some vals, some c0 =>
+      match intendedCtor c0 with
+      | some c => if validList c.operands vals ∧ ptrOk c vals then (cd, image c vals) else (cd, "bad-op")
+      | none => (cd, "no-intent")
+    | _, _ => (cd, "bad-op")
   | "sqe" :: "new_connect_unix" :: rest =>
     -- operands on the line: socket, path length, user_data, sqe_flags; the SocketArgUnix is built by the
     -- harness: addr_len = path length + NUL + sizeof(sa_family_t), pointer canonicalised to 0xA11CE0
